@@ -319,6 +319,11 @@ public:
   }
 
   void outOfLineConstructAt(size_t n) { outOfLineLocks.constructAt(n); }
+
+  void outOfLineDeallocate() {
+    outOfLineLocks.destroy();
+    outOfLineLocks.deallocate();
+  }
 };
 
 template <>
@@ -333,6 +338,7 @@ public:
   void outOfLineAllocateBlocked(size_t) {}
   void outOfLineAllocateFloating(size_t) {}
   void outOfLineConstructAt(size_t) {}
+  void outOfLineDeallocate() {}
   template <typename RangeArrayType>
   void outOfLineAllocateSpecified(size_t, RangeArrayType) {}
 };
